@@ -10,7 +10,7 @@ PROP = dict(
                 "one without benchmark lines, every position of an unexpected form field and every client abort point are "
                 "enumerated completely in both tiers, and every truncation offset of the multipart body with every delivery "
                 "mode (clean end, read error, loopback half-close; every 5th offset also with a hard connection close) in the thorough tier "
-                "(quick: every 7th offset plus all offsets within 3 bytes of a part boundary, header end or line end). "
+                "(quick: every 7th offset with one delivery mode plus all offsets within 3 bytes of a part boundary, header end or line end with clean end and read error). "
                 "Generated uploads (1-3 files, 1-6 benchmark lines each, label changes, other text, optional wide label sets that "
                 "force a database flush before the fault) after 0-3 earlier uploads get one fault at a position drawn uniformly "
                 "over all positions of that upload. After every scenario all queries, listings and the file store are compared "
@@ -39,7 +39,7 @@ PROP = dict(
     assumptions=[
         "single faults only: one failing file-store call / one truncation / one invalid file / one stray field / one abort per upload",
         "goroutine schedules are sampled (repetition, GOMAXPROCS 1-16, race detector), not enumerated",
-        "no sqlite I/O faults are injected; the database file lives on the sandbox file system",
+        "no sqlite I/O faults are injected; the database file lives on the sandbox file system; Mode A and the sequential ID unit open it with synchronous=OFF (durability across power loss is not part of the property)",
         "a failed fs.Writer.Close stores nothing (fs.Writer contract); the injected NewWriter/Write failures leave the underlying store untouched except for an optional half-accepted write",
         "errors such as 'database is locked' from concurrent NewUpload/Commit are allowed and counted; an error saying the generated ID already exists (UNIQUE constraint) is counted as a duplicate ID",
         "Mode A uses the wall clock only through the server (ID day, upload-time); no assertion depends on its value",
